@@ -443,6 +443,32 @@ def _patch_kernels():
     k = getattr(tr, "Arctan2", None)
     if k is not None and isinstance(k.numpy_ufunc, np.ufunc):
         k.numpy_ufunc = _UfuncShim(k.numpy_ufunc, _arctan2)
+    # reductions over empty / all-constant object arrays hand back a bare Python number
+    from mygrad.operation_base import Sequential
+
+    def subs(c):
+        for x in c.__subclasses__():
+            yield x
+            yield from subs(x)
+
+    for cls in subs(Sequential):
+        real = cls.__dict__.get("numpy_func")
+        if real is None or getattr(real, "_symnp_wrapped", False):
+            continue
+        fn = real.__func__ if isinstance(real, staticmethod) else real
+
+        def wrapped(a, *args, _fn=fn, **k):
+            r = _fn(a, *args, **k)
+            if isinstance(a, np.ndarray) and a.dtype == object:
+                return _symscalar(r)
+            return r
+
+        w = staticmethod(wrapped)
+        cls.numpy_func = w
+        try:
+            wrapped._symnp_wrapped = True
+        except Exception:
+            pass
     # selection-type ufuncs can hand back a bare Python operand (np.maximum(2.0, Sym) -> 2.0)
     from mygrad.math.misc import ops as mo
 
